@@ -23,8 +23,8 @@ TARGETS = ['PyTough.Props.C07', 'drv_c05']
 THEOREMS = ['Props.C07.' + t for t in ['nav_view_eq_fresh', 'index_in_range', 'stale_cells_witness', 'next_bounds', 'prev_bounds',
                                     'negative_index_normalised', 'index_out_of_range', 'set_time_nearest', 'set_step_nearest',
                                     'history_preserves_view', 'file_load_sets_index', 'file_load_ignores_cursor_time_step',
-                                    'file_index_in_range', 'file_nav_view_eq_fresh']]
-LEVEL_TEXT = ('Proof: 14 Lean theorems about the navigation machine of the reader (first/last/next/prev, index/time/step setters, history), '
+                                    'file_index_in_range', 'nav_view_eq_fresh_on', 'file_nav_view_eq_fresh_on', 'file_nav_view_eq_fresh_orbit']]
+LEVEL_TEXT = ('Proof: 16 Lean theorems about the navigation machine of the reader (first/last/next/prev, index/time/step setters, history), '
               'for every reader satisfying two stated hypotheses: after any sequence of successful actions the view equals that of a reader '
               'positioned directly at that index (nav_view_eq_fresh, with a counterexample showing the Covers hypothesis is needed); the index '
               'stays in range; next/prev report whether they moved and stop at the ends; negative indices count from the end, out-of-range ones '
@@ -36,8 +36,11 @@ LEVEL_TEXT = ('Proof: 14 Lean theorems about the navigation machine of the reade
               'so LoadSetsIndex is now a theorem, not a per-file check. '
               'file_load_ignores_cursor_time_step: what set_index j leaves does not depend on the previous file position, index, time or step, so Covers can fail only through table cells that are not overwritten. '
               'file_index_in_range: for every file, with no per-file hypothesis, the index stays in range after any action sequence. '
-              'file_nav_view_eq_fresh: nav_view_eq_fresh for the whole-file model with Covers as the only remaining hypothesis. '
-              'Still not proved: Covers itself (that re-reading overwrites every cell of every table present at the first time) - it depends on the rows printed at each result time of the file.')
+              'Covers as used by nav_view_eq_fresh quantifies over all states and is not satisfiable by a real file (it remains a theorem about abstract readers); '
+              'nav_view_eq_fresh_on / file_nav_view_eq_fresh_on restate it with the hypothesis asked only of states satisfying an invariant P preserved by re-reading (CoversOn, PreservedBy), '
+              'for the whole-file model with LoadSetsIndex proved and view = index, time, step and every table cell; '
+              'file_nav_view_eq_fresh_orbit: with P = membership in a finite set of reader states both hypotheses are one decidable per-file check (orbitOk), discharged by kernel evaluation on a concrete two-result file in Props/C07.lean. '
+              'Still not proved: that orbitOk / CoversOn holds for a given shipped file (re-reading overwrites every cell of every table) - it depends on the rows printed at each result time of the file and is evaluated per file by the sentinel test of the harness.')
 LEVEL_NOTE = ('Trusted: Lean kernel (+propext, Classical.choice, Quot.sound); the hand-written whole-file model of t2listing (compared with the real reader '
               'cell for cell on every run, C05); Covers is a hypothesis of nav_view_eq_fresh (LoadSetsIndex is proved for the whole-file model): Covers is evaluated on the model of every '
               'shipped file by a sentinel test and reported in the evidence, not proved for the whole-file model; nearest-selection is proved over exact '
